@@ -10,28 +10,28 @@ Open Scope string_scope.
 (* ---- the full statement: on every layout Python accepts, the generated from_dict equals the
         reference semantics (first absent required key -> MissingField, else present -> converted
         value, absent -> default / fresh factory result) ---- *)
-Definition C07_binding_full : Prop := forall conv L d c,
-  layout_ok L = true -> decode conv L d c = ref_decode conv L d c.
+Definition C07_binding_full : Prop := forall conv nba st L d c,
+  layout_ok L = true -> decode conv nba st L d c = ref_decode conv nba L d c.
 
 (* proved where the builder's view of the class agrees with what @dataclass made of it *)
-Theorem C07_binding_partial : forall conv L d c,
-  layout_ok L = true -> view_ok L = true -> decode conv L d c = ref_decode conv L d c.
+Theorem C07_binding_partial : forall conv nba st L d c,
+  layout_ok L = true -> view_ok L = true -> decode conv nba st L d c = ref_decode conv nba L d c.
 Proof. exact decode_ref. Qed.
 Print Assumptions C07_binding_partial.
 
 (* ... which is always the case when the builder runs after @dataclass and all hinted members are fields *)
-Theorem C07_binding_post : forall conv L d c,
+Theorem C07_binding_post : forall conv nba st L d c,
   layout_ok L = true -> (forall m, In m L -> post_coherent m) ->
-  decode conv L d c = ref_decode conv L d c.
+  decode conv nba st L d c = ref_decode conv nba L d c.
 Proof. exact decode_ref_post. Qed.
 Print Assumptions C07_binding_post.
 
 (* the same, spelled out per field *)
-Theorem C07_binding : forall conv L d c,
-  layout_ok L = true -> view_ok L = true -> first_missing L d = None ->
-  exists a c', decode conv L d c = OOk a c' /\ c <= c' /\
+Theorem C07_binding : forall conv nba st L d c,
+  layout_ok L = true -> view_ok L = true -> first_missing nba L d = None ->
+  exists a c', decode conv nba st L d c = OOk a c' /\ c <= c' /\
     forall m, In m L -> m_kind m = KNormal -> m_field m = true -> m_param m = true ->
-      match lookup (m_name m) d with
+      match rd nba m d with
       | Some v => attr_of (m_name m) a = Some (Some (eff_conv conv m v))
       | None =>
           match m_def m with
@@ -43,43 +43,52 @@ Theorem C07_binding : forall conv L d c,
 Proof. exact binding. Qed.
 Print Assumptions C07_binding.
 
-Theorem C07_missing : forall conv L d c f,
-  layout_ok L = true -> view_ok L = true -> first_missing L d = Some f ->
-  decode conv L d c = OMissing f.
+Theorem C07_missing : forall conv nba st L d c f,
+  layout_ok L = true -> view_ok L = true -> first_missing nba L d = Some f ->
+  decode conv nba st L d c = OMissing f.
 Proof. exact missing. Qed.
 Print Assumptions C07_missing.
 
 (* an explicit null for a nullable field (by type or by default None) overrides the default *)
-Theorem C07_null_wins : forall conv L d c m,
-  layout_ok L = true -> view_ok L = true -> first_missing L d = None ->
+Theorem C07_null_wins : forall conv nba st L d c m,
+  layout_ok L = true -> view_ok L = true -> first_missing nba L d = None ->
   In m L -> m_kind m = KNormal -> m_field m = true -> m_param m = true ->
-  tnullable m = true -> lookup (m_name m) d = Some PNone ->
-  exists a c', decode conv L d c = OOk a c' /\ attr_of (m_name m) a = Some (Some PNone).
+  tnullable m = true -> rd nba m d = Some PNone ->
+  exists a c', decode conv nba st L d c = OOk a c' /\ attr_of (m_name m) a = Some (Some PNone).
 Proof. exact null_wins. Qed.
 Print Assumptions C07_null_wins.
 
 (* key lemma: the positional arguments of the emitted call are a prefix of __init__'s positional parameters *)
-Theorem C07_positional_prefix : forall conv L d pl,
+Theorem C07_positional_prefix : forall conv nba st L d pl,
   forallb view_okm L = true -> forallb kind_ok L = true -> pos_ok false L = true ->
-  plan conv L false false d = inr pl ->
+  plan conv nba st L false false d = inr pl ->
   exists k, map fst (selmap tname sel_pos pl) = firstn k (map m_name (pos_params L)).
 Proof. exact pos_prefix. Qed.
 Print Assumptions C07_positional_prefix.
 
-(* members the builder does not treat as init fields (ClassVar, InitVar, KW_ONLY marker, init=False)
-   are never read: a key of that name changes nothing.  No hypothesis on the layout. *)
-Theorem C07_noninit_unread : forall conv L d c m0 v,
-  NoDup (map m_name L) -> In m0 L -> filtered m0 = false ->
-  decode conv L ((m_name m0, v) :: d) c = decode conv L d c.
+(* a key that no hinted init field reads is never read: in particular the name of a ClassVar, InitVar,
+   KW_ONLY marker or init=False member (unless some field has it as alias) changes nothing.
+   No hypothesis on the layout. *)
+Theorem C07_noninit_unread : forall conv nba st L d c k v,
+  (forall m, In m L -> filtered m = true -> ~ In k (keys_of nba m)) ->
+  decode conv nba st L ((k, v) :: d) c = decode conv nba st L d c.
 Proof. exact noninit_unread. Qed.
 Print Assumptions C07_noninit_unread.
 
+(* the sticky in_kwargs flag of the assembly loop is not needed on layouts Python accepts: the variant of
+   the generator that resets it per block (seeded change C07-1) decodes identically -- an equivalent mutant *)
+Theorem C07_sticky_irrelevant : forall conv nba L d c,
+  layout_ok L = true -> view_ok L = true ->
+  decode conv nba false L d c = decode conv nba true L d c.
+Proof. exact sticky_irrelevant. Qed.
+Print Assumptions C07_sticky_irrelevant.
+
 (* factory-made objects of one result carry exactly the labels c..c'-1; two results share none *)
-Theorem C07_factory_fresh : forall conv L d1 d2 c a1 c1 a2 c2,
+Theorem C07_factory_fresh : forall conv nba st L d1 d2 c a1 c1 a2 c2,
   layout_ok L = true -> view_ok L = true ->
   (forall f v, basic (conv f v) = true) -> input_basic d1 = true -> input_basic d2 = true ->
   defaults_basic L = true ->
-  decode conv L d1 c = OOk a1 c1 -> decode conv L d2 c1 = OOk a2 c2 ->
+  decode conv nba st L d1 c = OOk a1 c1 -> decode conv nba st L d2 c1 = OOk a2 c2 ->
   NoDup (labels a1 ++ labels a2).
 Proof. exact fresh_two. Qed.
 Print Assumptions C07_factory_fresh.
@@ -92,44 +101,47 @@ Definition kf_override : layout :=
   [ {| m_name := "x"; m_kind := KNormal; m_field := true; m_param := true; m_kw := false;
        m_def := DVal (PInt 5);
        m_anc := Some {| bf_def := DVal (PInt 5); bf_init := true; bf_kw := Some false |};
-       m_own := true; m_ns := NsNone; m_df := None; m_nullty := false; m_ident := false |} ].
+       m_own := true; m_ns := NsNone; m_df := None; m_nullty := false; m_ident := false; m_alias := None; m_unull := false |} ].
 
 Theorem C07_binding_refuted : ~ C07_binding_full.
 Proof.
-  intro H. specialize (H idconv kf_override [] 0 eq_refl). vm_compute in H. discriminate.
+  intro H. specialize (H idconv false true kf_override [] 0 eq_refl). vm_compute in H. discriminate.
 Qed.
 Print Assumptions C07_binding_refuted.
 
 Example kf_override_model :
   layout_ok kf_override = true /\ view_ok kf_override = false /\
-  decode idconv kf_override [] 0 = OMissing "x" /\
-  ref_decode idconv kf_override [] 0 = OOk [("x", Some (PInt 5))] 0.
+  decode idconv false true kf_override [] 0 = OMissing "x" /\
+  ref_decode idconv false kf_override [] 0 = OOk [("x", Some (PInt 5))] 0.
 Proof. repeat split; reflexivity. Qed.
 
 (* class P0: p: int = 3      @dataclass class C0(P0, Mixin): x: int = 1 *)
 Definition kf_plain_base : layout :=
   [ {| m_name := "p"; m_kind := KNormal; m_field := false; m_param := false; m_kw := false;
        m_def := DVal (PInt 3); m_anc := None; m_own := false; m_ns := NsNone; m_df := None;
-       m_nullty := false; m_ident := false |};
+       m_nullty := false; m_ident := false; m_alias := None; m_unull := false |};
     {| m_name := "x"; m_kind := KNormal; m_field := true; m_param := true; m_kw := false;
        m_def := DVal (PInt 1); m_anc := None; m_own := true; m_ns := NsValue (PInt 1); m_df := None;
-       m_nullty := false; m_ident := false |} ].
+       m_nullty := false; m_ident := false; m_alias := None; m_unull := false |} ].
 
-Definition C07_noninit_full : Prop := forall conv L d c m0 v,
+Definition C07_noninit_full : Prop := forall conv nba st L d c m0 v,
   layout_ok L = true -> In m0 L -> m_param m0 = false ->
-  decode conv L ((m_name m0, v) :: d) c = decode conv L d c.
+  (forall m, In m L -> m_alias m = None) ->
+  decode conv nba st L ((m_name m0, v) :: d) c = decode conv nba st L d c.
 
 Theorem C07_noninit_refuted_plain_base : ~ C07_noninit_full.
 Proof.
   intro H.
-  specialize (H idconv kf_plain_base [] 0 _ (PInt 1) eq_refl (or_introl eq_refl) eq_refl).
+  specialize (H idconv false true kf_plain_base [] 0 _ (PInt 1) eq_refl (or_introl eq_refl) eq_refl).
+  assert (Ha: forall m, In m kf_plain_base -> m_alias m = None) by (intros m [<-|[<-|[]]]; reflexivity).
+  specialize (H Ha).
   vm_compute in H. discriminate.
 Qed.
 Print Assumptions C07_noninit_refuted_plain_base.
 
 Example kf_plain_base_model :
-  decode idconv kf_plain_base [] 0 = OMissing "p" /\
-  decode idconv kf_plain_base [("p", PInt 1)] 0 = OTypeError.
+  decode idconv false true kf_plain_base [] 0 = OMissing "p" /\
+  decode idconv false true kf_plain_base [("p", PInt 1)] 0 = OTypeError.
 Proof. split; reflexivity. Qed.
 
 (* ---- non-vacuity: a layout with every feature is in the domain of the theorems, and the
@@ -139,23 +151,23 @@ Proof. split; reflexivity. Qed.
    seen after @dataclass (codec path) *)
 Definition pf (d: dflt) (i k: bool) := Some {| bf_def := d; bf_init := i; bf_kw := Some k |}.
 Definition demo : layout :=
-  [ Build_member "a" KNormal true true false DNone None true NsNone (pf DNone true false) false false;
-    Build_member "iv" KInitVar false true false (DVal (PInt 0)) None true (NsValue (PInt 0)) (pf (DVal (PInt 0)) true false) false false;
-    Build_member "cv" KClassVar false false false (DVal (PInt 9)) None true (NsValue (PInt 9)) None false false;
-    Build_member "_" KSentinel false false false DNone None true NsNone None false false;
-    Build_member "b" KNormal true true true DNone None true NsNone (pf DNone true true) true false;
-    Build_member "c" KNormal true true true DFac None true NsNone (pf DFac true true) false false;
-    Build_member "ni" KNormal true false true (DVal (PInt 4)) None true (NsValue (PInt 4)) (pf (DVal (PInt 4)) false true) false false;
-    Build_member "e" KNormal true true true (DVal PNone) None true (NsValue PNone) (pf (DVal PNone) true true) false false ].
+  [ Build_member "a" KNormal true true false DNone None true NsNone (pf DNone true false) false false None false;
+    Build_member "iv" KInitVar false true false (DVal (PInt 0)) None true (NsValue (PInt 0)) (pf (DVal (PInt 0)) true false) false false None false;
+    Build_member "cv" KClassVar false false false (DVal (PInt 9)) None true (NsValue (PInt 9)) None false false None false;
+    Build_member "_" KSentinel false false false DNone None true NsNone None false false None false;
+    Build_member "b" KNormal true true true DNone None true NsNone (pf DNone true true) true false None false;
+    Build_member "c" KNormal true true true DFac None true NsNone (pf DFac true true) false false None false;
+    Build_member "ni" KNormal true false true (DVal (PInt 4)) None true (NsValue (PInt 4)) (pf (DVal (PInt 4)) false true) false false None false;
+    Build_member "e" KNormal true true true (DVal PNone) None true (NsValue PNone) (pf (DVal PNone) true true) false false None false ].
 
 Example C07_nonvacuous :
   layout_ok demo = true /\ view_ok demo = true /\
   (forall m, In m demo -> post_coherent m) /\
-  first_missing demo [("a", PInt 1); ("b", PNone); ("e", PNone); ("ni", PInt 77); ("cv", PInt 78)] = None /\
-  decode idconv demo [("a", PInt 1); ("b", PNone); ("e", PNone); ("ni", PInt 77); ("cv", PInt 78)] 3 =
+  first_missing false demo [("a", PInt 1); ("b", PNone); ("e", PNone); ("ni", PInt 77); ("cv", PInt 78)] = None /\
+  decode idconv false true demo [("a", PInt 1); ("b", PNone); ("e", PNone); ("ni", PInt 77); ("cv", PInt 78)] 3 =
     OOk [("a", Some (PInt 1)); ("iv", Some (PInt 0)); ("cv", Some (PInt 9)); ("_", None);
          ("b", Some PNone); ("c", Some (PFresh 3)); ("ni", Some (PInt 4)); ("e", Some PNone)] 4 /\
-  first_missing demo [("a", PInt 1)] = Some "b".
+  first_missing false demo [("a", PInt 1)] = Some "b".
 Proof.
   split; [reflexivity|]. split; [reflexivity|]. split; [|repeat split; reflexivity].
   intros m Hi. unfold post_coherent. cbn in Hi.
@@ -165,7 +177,7 @@ Qed.
 
 (* the emitted call for [demo]: one positional, one keyword argument, the rest through **kwargs *)
 Example C07_nonvacuous_call :
-  match plan idconv demo false false [("a", PInt 1); ("b", PInt 2); ("c", PList []); ("e", PInt 5)] with
+  match plan idconv false true demo false false [("a", PInt 1); ("b", PInt 2); ("c", PList []); ("e", PInt 5)] with
   | inr pl => pos_of pl = [PInt 1] /\ kws_of pl = [("b", PInt 2)]
               /\ kwargs_of pl = [("c", PList []); ("e", PInt 5)]
   | inl _ => False
@@ -177,22 +189,40 @@ Proof. vm_compute. repeat split. Qed.
    class S: r: Optional[float] = 0.0; s: Optional[str] = ""; t: Optional[int] = 7; u: Optional[int] = None;
             v: Any = 0 (identity unpacker); w: int = None (nullable only through its default) *)
 Definition spectrum : layout :=
-  [ Build_member "r" KNormal true true false (DVal (PFloat 0)) None true (NsValue (PFloat 0)) (pf (DVal (PFloat 0)) true false) true false;
-    Build_member "s" KNormal true true false (DVal (PStr "")) None true (NsValue (PStr "")) (pf (DVal (PStr "")) true false) true false;
-    Build_member "t" KNormal true true false (DVal (PInt 7)) None true (NsValue (PInt 7)) (pf (DVal (PInt 7)) true false) true false;
-    Build_member "u" KNormal true true false (DVal PNone) None true (NsValue PNone) (pf (DVal PNone) true false) true false;
-    Build_member "v" KNormal true true false (DVal (PInt 0)) None true (NsValue (PInt 0)) (pf (DVal (PInt 0)) true false) true true;
-    Build_member "w" KNormal true true false (DVal PNone) None true (NsValue PNone) (pf (DVal PNone) true false) false false ].
+  [ Build_member "r" KNormal true true false (DVal (PFloat 0)) None true (NsValue (PFloat 0)) (pf (DVal (PFloat 0)) true false) true false None false;
+    Build_member "s" KNormal true true false (DVal (PStr "")) None true (NsValue (PStr "")) (pf (DVal (PStr "")) true false) true false None false;
+    Build_member "t" KNormal true true false (DVal (PInt 7)) None true (NsValue (PInt 7)) (pf (DVal (PInt 7)) true false) true false None false;
+    Build_member "u" KNormal true true false (DVal PNone) None true (NsValue PNone) (pf (DVal PNone) true false) true false None false;
+    Build_member "v" KNormal true true false (DVal (PInt 0)) None true (NsValue (PInt 0)) (pf (DVal (PInt 0)) true false) true true None false;
+    Build_member "w" KNormal true true false (DVal PNone) None true (NsValue PNone) (pf (DVal PNone) true false) false false None false ].
 
 Example C07_null_beats_any_default :
   layout_ok spectrum = true /\ view_ok spectrum = true /\
-  decode idconv spectrum [("r", PNone); ("s", PNone); ("t", PNone); ("u", PNone); ("v", PNone); ("w", PNone)] 0 =
+  decode idconv false true spectrum [("r", PNone); ("s", PNone); ("t", PNone); ("u", PNone); ("v", PNone); ("w", PNone)] 0 =
     OOk [("r", Some PNone); ("s", Some PNone); ("t", Some PNone); ("u", Some PNone); ("v", Some PNone); ("w", Some PNone)] 0 /\
-  decode idconv spectrum [] 0 =
+  decode idconv false true spectrum [] 0 =
     OOk [("r", Some (PFloat 0)); ("s", Some (PStr "")); ("t", Some (PInt 7)); ("u", Some PNone);
          ("v", Some (PInt 0)); ("w", Some PNone)] 0 /\
   (* falsy present values beat truthy defaults as well *)
-  decode idconv spectrum [("t", PInt 0); ("v", PBool false)] 0 =
+  decode idconv false true spectrum [("t", PInt 0); ("v", PBool false)] 0 =
     OOk [("r", Some (PFloat 0)); ("s", Some (PStr "")); ("t", Some (PInt 0)); ("u", Some PNone);
          ("v", Some (PBool false)); ("w", Some PNone)] 0.
+Proof. repeat split; reflexivity. Qed.
+
+(* ---- alias keys and wrapped Optionals (instances of C07_binding / C07_null_wins) ----
+   class K: x: Optional[int] = field(default=10, metadata=field_options(alias="al"))
+            w: Annotated[Optional[int], "meta"] = 0         (the field block sees a non-nullable type) *)
+Definition aliased : layout :=
+  [ Build_member "x" KNormal true true false (DVal (PInt 10)) None true (NsValue (PInt 10)) (pf (DVal (PInt 10)) true false) true false (Some "al") false;
+    Build_member "w" KNormal true true false (DVal (PInt 0)) None true (NsValue (PInt 0)) (pf (DVal (PInt 0)) true false) false false None true ].
+
+Example C07_alias_null_and_wrapped :
+  layout_ok aliased = true /\ view_ok aliased = true /\
+  (* allow_deserialization_not_by_alias: a null under the alias key is present and wins over the by-name key *)
+  decode idconv true true aliased [("al", PNone); ("x", PInt 7); ("w", PNone)] 0 =
+    OOk [("x", Some PNone); ("w", Some PNone)] 0 /\
+  decode idconv true true aliased [("x", PInt 7)] 0 = OOk [("x", Some (PInt 7)); ("w", Some (PInt 0))] 0 /\
+  (* without the option the field name is not a key of the field *)
+  decode idconv false true aliased [("x", PInt 7)] 0 = OOk [("x", Some (PInt 10)); ("w", Some (PInt 0))] 0 /\
+  decode idconv false true aliased [("al", PNone)] 0 = OOk [("x", Some PNone); ("w", Some (PInt 0))] 0.
 Proof. repeat split; reflexivity. Qed.
